@@ -47,9 +47,17 @@ def stage_cases(ctx, st):
         only = ctx.replay_only if ctx.replay_only and ctx.replay_only.get("stage") == name else None
         if only:
             sd, nn = only["seed"], only["n"]
-        rc, out, dt = V.run_driver(binp, st["driver"], sd, nn, ctx.tier, outdir,
-                                   only=(only["index"] if only else None), timeout=st.get("timeout", 3000),
-                                   extra_args=st.get("args"))
+        if st.get("gotest"):
+            # a Go test binary (virtual clock harness): parameters through the environment
+            import shutil
+            shutil.rmtree(outdir, ignore_errors=True)
+            os.makedirs(outdir, exist_ok=True)
+            env = dict(V.GOENV, VERIF_OUT=outdir, VERIF_SEED=str(sd), VERIF_N=str(nn), VERIF_TIER=ctx.tier)
+            rc, out, dt = V.run([binp, "-test.run", st["gotest"], "-test.timeout", "20m"], cwd=V.WORK, env=env, timeout=1500)
+        else:
+            rc, out, dt = V.run_driver(binp, st["driver"], sd, nn, ctx.tier, outdir,
+                                       only=(only["index"] if only else None), timeout=st.get("timeout", 3000),
+                                       extra_args=st.get("args"))
         if rc != 0:
             ctx.violation("driver %s failed against the current tree (correspondence %s no longer checks)" % (st["driver"], name),
                           {"kind": "correspondence", "stage": name, "broken": "correspondence:" + name, "log": out[-3000:]}, no_input=True)
